@@ -513,7 +513,7 @@ def run(prog, rep):
 NN = 'fim/slivers/network_node.py'
 MUTANTS = [
     {'name': 'fpga-sub-interfaces-not-compared', 'file': 'fim/slivers/network_node.py', 'rule': 'R6',
-     'find': 'if cA.get_type() in (ComponentType.SmartNIC, ComponentType.FPGA):', 'replace': 'if cA.get_type() == ComponentType.SmartNIC:'},
+     'find': 'if cA.get_type() in (ComponentType.SmartNIC, ComponentType.FPGA) and \\\n', 'replace': 'if cA.get_type() == ComponentType.SmartNIC and \\\n'},
     {'name': 'sub-interfaces-flag-on-any-difference', 'file': 'fim/slivers/network_service.py', 'rule': 'R6',
      'find': 'if if_diff and (if_diff.added.interfaces or if_diff.removed.interfaces or if_diff.modified.interfaces):', 'replace': 'if if_diff:'},
     {'name': 'node-services-diff-both-other', 'file': NN, 'rule': 'R1',
